@@ -126,6 +126,18 @@ check("C11", "proof",
       "itself, the arithmetic laws and the duration text grammar (float fsum) are a bounded sweep against an independent "
       "proleptic Gregorian computation.",
       "contract-based deductive verification relative to library contracts + exhaustive finite table + bounded calendar sweep", "DESIGN.md 4/C11")
+check("C12", "proof",
+      "NameContainer.resolve_name is executed symbolically for packages of 0-2 components and parent chains of 1-3 "
+      "containers with find_name abstracted (an arbitrary found/not-found outcome per container and path): the result is "
+      "the match at the longest package prefix that matches anywhere in the chain, the local-most container winning (this "
+      "is also what makes a macro variable shadow an outer one), KeyError iff nothing matches; Activation.resolve_variable "
+      "passes the package, prefers the value over the annotation and falls back to functions. The trie (load_annotations, "
+      "load_values, find_name, dict_find_name, member_dot) is decided by an exhaustive enumeration over the a.b.c alphabet: "
+      "every assignment {absent, variable, map} to the prefixes x package levels x references, both runners, against the "
+      "specification resolver; plus nested/colliding macro programs.",
+      "find_name abstraction in the proof; the enumeration is exhaustive only for the three-component alphabet; one recorded "
+      "known finding (a bound name that is also a prefix of longer bindings evaluates to the internal NameContainer).",
+      "contract-based deductive verification (loop unrolled over concrete package/chain shapes, symbolic outcomes) + exhaustive small-alphabet enumeration", "DESIGN.md 4/C12")
 _pending = "contracts for this property are not built yet in this revision (work in progress, see DESIGN.md section 8 build order)"
-for _p in ["C03","C04","C05","C06","C07","C12","C14","C16"]:
+for _p in ["C03","C04","C05","C06","C07","C14","C16"]:
     NA[_p] = _pending
